@@ -31,12 +31,15 @@ fn parse_objective(text: &str) -> (String, Vec<String>, bool) {
     let res = std::panic::catch_unwind(|| RoocParser::new(src.clone()).parse());
     match res {
         Err(_) => ("(err panic)".into(), vec![], false),
-        Ok(Err(_)) => ("(err reject)".into(), vec![], false),
+        Ok(Err(e)) => (format!("(err reject {})", syntax::error_class(&e)), vec![], false),
         Ok(Ok(pm)) => {
             let e = &pm.objective().rhs;
             let mut vars = vec![];
             syntax::variables(e, &mut vars);
-            (format!("(ok {})", syntax::pre_exp(e, &src)), vars, true)
+            let tree = syntax::pre_exp(e, &src);
+            // marker for `one_ctx`: leaves beyond numbers / names / calls are not compiled for the oracle
+            if syntax::has_block_leaf(e) { vars.insert(0, "\u{0}blocks".into()); }
+            (format!("(ok {})", tree), vars, true)
         }
     }
 }
@@ -82,18 +85,29 @@ fn one_text(text: &str, toks: &[T], stream: &str) -> Case { one_ctx(text, toks, 
 
 /// `consts`: named `where` constants (name, integer / decimal literal) the expression may mention
 fn one_ctx(text: &str, toks: &[T], stream: &str, consts: &[(String, String)]) -> Case {
-    let (imp, vars, accepted) = parse_objective(text);
+    let (imp, mut vars, accepted) = parse_objective(text);
+    let blocks = vars.first().map(|v| v == "\u{0}blocks").unwrap_or(false);
+    if blocks { vars.remove(0); }
     let mut c = Case::default();
     c.req = format!("parse {}", sx::q(text));
     c.imp = imp.clone();
     c.show = text.to_string();
-    c.tags = vec![stream.to_string(), if accepted { "accept".into() } else { "reject".into() }];
+    c.tags = vec![stream.to_string(), if accepted { "accept".into() } else { format!("reject:{}", imp.trim_end_matches(')').rsplit(' ').next().unwrap_or("?")) }];
+    // texts the lexer model declines (escaped names, `$`/`_`-prefixed compounds, graphs, …) and trees with an array
+    // whose display the model does not compute are not compared with the model; the oracle still judges them
+    if !syntax::lex_supported(text) || imp.contains("(other ") || opaque_array(&imp) {
+        c.req = String::new();
+        c.tags.push("model-declines".into());
+    }
     features(toks, &mut c.tags);
     let nops = imp.matches("(bin ").count() + imp.matches("(un ").count();
     c.tags.push(format!("ops-{}", nops.min(6)));
     c.nontrivial = accepted && nops >= 1;
     let impl_part = if !accepted {
         "reject".to_string()
+    } else if blocks {
+        c.tags.push("pre-only".into());
+        format!("(pre {})", &imp[4..imp.len() - 1])
     } else {
         match compiled_objective(text, &vars, consts) {
             Some(e) => { c.tags.push("compiled".into()); format!("(compiled {})", e) }
@@ -128,6 +142,23 @@ fn one_ctx(text: &str, toks: &[T], stream: &str, consts: &[(String, String)]) ->
         c.tags.push("alias-twin".into());
     }
     c
+}
+
+/// does the tree carry an array literal other than an integer / boolean / empty one (`(prim "[1, 2]")`)?
+fn opaque_array(imp: &str) -> bool {
+    let mut rest = imp;
+    while let Some(k) = rest.find("(prim \"") {
+        let body = &rest[k + 7..];
+        let end = body.find('"').unwrap_or(body.len());
+        let d = &body[..end];
+        let inner = d.trim_start_matches('[').trim_end_matches(']');
+        let ok = d.starts_with('[') && d.ends_with(']') && !inner.contains('[')
+            && (inner.is_empty() || inner.split(", ").all(|x| !x.is_empty() && x.chars().all(|c| c.is_ascii_digit()))
+                || inner.split(", ").all(|x| x == "true" || x == "false"));
+        if !ok { return true; }
+        rest = &body[end..];
+    }
+    false
 }
 
 /// rename every word that starts (any letter case) with `true` / `false`, is not exactly that literal and is not
@@ -192,8 +223,76 @@ fn exhaustive(len: usize, out: &mut Vec<Vec<T>>) {
 const LEAVES: [&str; 4] = ["a", "b", "c", "d"];
 
 /// random well-formed token sequence (expression grammar with random redundant/needed parentheses)
-pub struct GenCfg { pub calls: bool, pub odd_words: bool, pub bools: bool }
-pub const FULL: GenCfg = GenCfg { calls: true, odd_words: true, bools: true };
+pub struct GenCfg { pub calls: bool, pub odd_words: bool, pub bools: bool, pub blocks: bool }
+pub const FULL: GenCfg = GenCfg { calls: true, odd_words: true, bools: true, blocks: false };
+pub const BLOCKS: GenCfg = GenCfg { calls: true, odd_words: false, bools: true, blocks: true };
+
+/// leaves beyond numbers, names and calls: compound variables, array accesses, block functions, scoped blocks over
+/// ranges / sets / tuples, array literals, strings, function names with underscores
+fn gen_block_leaf(r: &mut Rng, g: &GenCfg, depth: u32, out: &mut Vec<T>) {
+    let d = depth.saturating_sub(1);
+    match r.below(14) {
+        0 | 1 => {
+            // x_i, x_2, x_{e}, x_i_{e}_3
+            out.push(w(*r.pick(&["x", "y", "cost", "min", "in", "not", "true"])));
+            for _ in 0..(1 + r.below(3)) {
+                out.push(T::Us);
+                match r.below(4) {
+                    0 => out.push(int(*r.pick(&["0", "1", "12"]))),
+                    1 if depth > 0 => { out.push(T::LBrace); gen_exp(r, g, d, out); out.push(T::RBrace); }
+                    _ => out.push(w(*r.pick(&["i", "j", "u", "in", "k2"]))),
+                }
+            }
+        }
+        2 | 3 => {
+            out.push(w(*r.pick(&["v", "m", "c", "min"])));
+            for _ in 0..(1 + r.below(2)) { out.push(T::LBrack); gen_exp(r, g, d, out); out.push(T::RBrack); }
+        }
+        4 | 5 | 6 => {
+            let k = *r.pick(&["min", "max", "avg", "abs", "all", "any", "xor", "conjunction", "disjunction", "exclusive_disjunction"]);
+            out.push(w(k));
+            out.push(T::LBrace);
+            let n = if k == "abs" { 1 } else { 1 + r.below(3) };
+            for i in 0..n { if i > 0 { out.push(T::Comma); } gen_exp(r, g, d, out); }
+            out.push(T::RBrace);
+        }
+        7 | 8 | 9 => {
+            out.push(w(*r.pick(&["sum", "prod", "min", "max", "avg", "all", "any", "xor", "conjunction"])));
+            out.push(T::LPar);
+            for i in 0..(1 + r.below(2)) {
+                if i > 0 { out.push(T::Comma); }
+                if r.chance(1, 4) {
+                    out.extend([T::LPar, w("u"), T::Comma, w("v"), T::RPar, w(*r.pick(&["in", "in", "IN"])), w("edges"), T::LPar, w("G"), T::RPar]);
+                } else {
+                    out.push(w(*r.pick(&["i", "j", "k"])));
+                    out.push(w(*r.pick(&["in", "in", "in", "In"])));
+                    match r.below(4) {
+                        0 => out.push(w(*r.pick(&["S", "v"]))),
+                        1 => { out.extend([w("len"), T::LPar, w("v"), T::RPar, T::DotDot]); gen_exp(r, g, 0, out); }
+                        _ => { gen_exp(r, g, d.min(1), out); out.push(if r.chance(1, 3) { T::DotDotEq } else { T::DotDot }); gen_exp(r, g, d.min(1), out); }
+                    }
+                }
+            }
+            out.push(T::RPar);
+            out.push(T::LBrace);
+            gen_exp(r, g, d, out);
+            out.push(T::RBrace);
+        }
+        10 => {
+            out.push(T::LBrack);
+            let n = r.below(4);
+            for i in 0..n { if i > 0 { out.push(T::Comma); } out.push(int(*r.pick(&["1", "2", "30", "007"]))); }
+            out.push(T::RBrack);
+        }
+        11 => out.push(T::Str(r.pick(&["a", "a b", "", "x_1"]).to_string())),
+        12 => {
+            out.extend([w("neigh"), T::Us, w("edges"), T::LPar, w("G"), T::Comma]);
+            gen_exp(r, g, d, out);
+            out.push(T::RPar);
+        }
+        _ => { out.extend([w("len"), T::LPar, w("v"), T::RPar]); }
+    }
+}
 
 pub fn gen_exp(r: &mut Rng, g: &GenCfg, depth: u32, out: &mut Vec<T>) {
     if depth == 0 || r.chance(1, 4) { return gen_leaf(r, g, depth, out); }
@@ -221,12 +320,13 @@ fn gen_operand(r: &mut Rng, g: &GenCfg, depth: u32, out: &mut Vec<T>) {
     }
 }
 fn gen_leaf(r: &mut Rng, g: &GenCfg, depth: u32, out: &mut Vec<T>) {
+    if g.blocks && r.chance(2, 5) { return gen_block_leaf(r, g, depth, out); }
     match r.below(16) {
         0..=5 => out.push(w(*r.pick(&["x", "y", "z", "w"]))),
         6 | 7 => out.push(int(*r.pick(&["0", "1", "2", "3", "10"]))),
         8 => out.push(T::Float(r.pick(&["2.5", "0.25", "1.0", "3.75", "0.1", "2.50"]).to_string())),
         9 if g.bools => out.push(w(*r.pick(&["true", "false"]))),
-        10 if g.odd_words => out.push(w(*r.pick(&["android", "order", "nothing", "iffy", "xor1", "implies2", "mins", "format", "$x", "_u", "inx", "ast", "lets", "And", "NOT", "forêt", "orée", "notée", "inès", "asín", "maxı", "trueé", "λ", "дa"]))),
+        10 if g.odd_words => out.push(w(*r.pick(&["android", "order", "nothing", "iffy", "xor1", "implies2", "mins", "format", "$x", "_u", "inx", "ast", "lets", "And", "NOT", "not1", "true2", "and3x", "e1", "e5", "xor2", "in1", "or0", "iff9", "E2", "forêt", "orée", "notée", "inès", "asín", "maxı", "trueé", "λ", "дa"]))),
         11 | 12 => {
             // implicit multiplication: (number | parenthesis)+ variable?
             let n = 1 + r.below(3);
@@ -368,7 +468,8 @@ pub fn generate(seed: u64, n: usize, thorough: bool, corpus: Option<&str>) -> Ve
     }
 
     // --- implicit multiplication: every arrangement of up to 4 atoms {2, (a), (a+b), x} in the contexts a/_ , -_ , _*c
-    let atoms: [Vec<T>; 5] = [vec![int("2")], vec![T::LPar, w("a"), T::RPar], vec![T::LPar, w("a"), T::Plus, w("b"), T::RPar], vec![w("x")], vec![T::Float("2.5".into())]];
+    let atoms: [Vec<T>; 6] = [vec![int("2")], vec![T::LPar, w("a"), T::RPar], vec![T::LPar, w("a"), T::Plus, w("b"), T::RPar], vec![w("x")], vec![T::Float("2.5".into())],
+        vec![w("e1")]];
     let mut arrangements: Vec<Vec<usize>> = vec![];
     for len in 1..=(if thorough { 4 } else { 3 }) {
         let mut idx = vec![0usize; len];
@@ -448,5 +549,74 @@ pub fn generate(seed: u64, n: usize, thorough: bool, corpus: Option<&str>) -> Ve
         if syntax::in_domain(&m) && m.len() <= 26 { push(one(&m, 0, &mut r, "random-mutated"), &mut cases); }
         if cases.len() > before { made += 1; }
     }
+
+    // --- the same with the block leaves: compound variables, array accesses, block functions, scoped blocks over ranges,
+    //     sets and tuples, arrays, strings; tight / random spacing (incl. newlines where the grammar skips them) / mutated
+    let pool2: Vec<T> = vec![T::LBrace, T::RBrace, T::LBrack, T::RBrack, T::DotDot, T::DotDotEq, T::Us, T::Comma, T::LPar, T::RPar,
+        w("in"), w("i"), w("sum"), w("min"), w("abs"), w("x"), int("1"), T::Plus, T::Minus, w("and"), w("not"), T::Nl];
+    let mut made = 0;
+    let mut guard = 0;
+    while made < n && guard < 20 * n + 100 {
+        guard += 1;
+        let mut t = vec![];
+        let depth = 1 + r.below(3) as u32;
+        gen_exp(&mut r, &BLOCKS, depth, &mut t);
+        if t.len() > 40 || !t.iter().any(|x| matches!(x, T::LBrace | T::LBrack | T::Us | T::Str(_))) { continue; }
+        let before = cases.len();
+        push(one(&t, 0, &mut r, "blocks-wellformed"), &mut cases);
+        if r.chance(1, 2) { push(one(&t, 1, &mut r, "blocks-tight"), &mut cases); }
+        if r.chance(1, 2) { push(one(&t, 2, &mut r, "blocks-spacing"), &mut cases); }
+        // MALFORMED stream: one or two token edits of a well-formed text (the class of each rejection is compared)
+        let mut m = t.clone();
+        for _ in 0..(1 + r.below(2)) {
+            if m.is_empty() { break; }
+            match r.below(4) {
+                0 => { let i = r.below(m.len()); m.remove(i); }
+                1 => { let i = r.below(m.len() + 1); m.insert(i, r.pick(&pool2).clone()); }
+                2 => { let i = r.below(m.len()); m[i] = r.pick(&pool2).clone(); }
+                _ => { if m.len() >= 2 { let i = r.below(m.len() - 1); m.swap(i, i + 1); } }
+            }
+        }
+        if m.len() <= 42 { push(one(&m, 0, &mut r, "malformed-edits"), &mut cases); }
+        if cases.len() > before { made += 1; }
+    }
+
+    // --- MALFORMED stream, by class: every error of the AST builders at every position it can occur in, pairs of errors
+    //     (which one is reported first), and texts the grammar itself refuses
+    let big = "99999999999999999999";
+    let by_class: Vec<String> = vec![
+        // integer literal beyond i64
+        format!("{}", big), format!("x + {}", big), format!("f({})", big), format!("f(1, {})", big), format!("min {{ 1, {} }}", big),
+        format!("sum(i in 0..{}) {{ i }}", big), format!("sum(i in {}..3) {{ i }}", big), format!("sum(i in 0..3) {{ {} }}", big),
+        format!("sum(i in S, j in 0..{}) {{ i }}", big), format!("x_{}", big), format!("x_{{{}}}", big), format!("x_i_{{1 + {}}}", big),
+        format!("v[{}]", big), format!("v[0][{}]", big), format!("[1, {}]", big), format!("[{}]", big), format!("2({})", big),
+        format!("({})x", big), format!("-{}", big), format!("not {}", big), format!("2 * ({} + 1)", big), format!("len([{}])", big),
+        "9223372036854775807".into(), "9223372036854775808".into(), "x_9223372036854775808".into(), "[9223372036854775807]".into(),
+        // unknown block function / scoped block, wrong number of members
+        "foo { 1 }".into(), "sum { 1, 2 }".into(), "prod { x }".into(), "len { v }".into(), "Min { 1, 2 }".into(), "MAX { 1 }".into(),
+        "f(i in 0..3) { i }".into(), "abs(i in 0..3) { i }".into(), "len(i in v) { i }".into(), "Sum(i in 0..3) { i }".into(),
+        "abs { 1, 2 }".into(), "abs { 1, 2, 3 }".into(), "abs { x } + abs { x, y }".into(), "min { abs { 1, 2 } }".into(),
+        "conjunction { a, b }".into(), "exclusive_disjunction(i in 0..2) { a }".into(), "disjunction { a }".into(),
+        // two errors: the first one in the order of the builders is the one reported
+        format!("foo {{ {} }}", big), format!("abs {{ {}, 1 }}", big), format!("abs {{ 1, {} }}", big),
+        format!("f(i in 0..{}) {{ i }}", big), format!("f(i in 0..3) {{ {} }}", big), format!("abs {{ 1, 2 }} + {}", big),
+        format!("{} + abs {{ 1, 2 }}", big), format!("foo {{ 1 }} * bar {{ {} }}", big), format!("bar(i in S) {{ foo {{ {} }} }}", big),
+        format!("min {{ foo {{ 1 }}, {} }}", big), format!("sum(i in foo {{ 1 }}..{}) {{ i }}", big), "abs { foo { 1 }, 2 }".into(),
+        format!("x_{{foo {{ 1 }}}} + {}", big), format!("v[abs {{ 1, 2 }}][{}]", big),
+        // refused by the grammar
+        "min { }".into(), "min { , }".into(), "min { 1, }".into(), "min { 1 2 }".into(), "min { 1".into(), "min 1 }".into(), "min { 1 } }".into(),
+        "sum() { x }".into(), "sum(i) { x }".into(), "sum(i in) { x }".into(), "sum(i in 0..) { i }".into(), "sum(i in ..3) { i }".into(),
+        "sum(i in 0..3 { i }".into(), "sum(i in 0..3) i".into(), "sum(i in 0..3) { }".into(), "sum(i in 0..3,) { i }".into(),
+        "sum(i in 0...3) { i }".into(), "sum(i in 0..=) { i }".into(), "sum(i, j in S) { i }".into(), "sum((i, j) S) { i }".into(),
+        "sum((i, ) in S) { i }".into(), "sum(() in S) { i }".into(), "sum((i j) in S) { i }".into(), "sum(2 in S) { 1 }".into(),
+        "sum(i in 0..3) { i } { j }".into(), "sum(i in 0..3)".into(), "sum(i in 0..3) + 1".into(), "0..3".into(), "x + 0..3".into(),
+        "len(0..3)".into(), "x_".into(), "x_ + 1".into(), "x_{".into(), "x_{}".into(), "x_{1".into(), "x_{1} }".into(), "x_{1 2}".into(),
+        "v[".into(), "v[]".into(), "v[1".into(), "v[1]]".into(), "v[1 2]".into(), "v[1][".into(), "v [1]".into(), "2[1]".into(), "(v)[1]".into(),
+        "[1,]".into(), "[,]".into(), "[1 2]".into(), "[1".into(), "1]".into(), "[x]".into(), "[1 + 1]".into(), "[-1]".into(), "[[1], 2]".into(),
+        "\"abc".into(), "\"a\" \"b\"".into(), "\"a\"x".into(), "2\"a\"".into(), "{ 1 }".into(), "{ }".into(), "} {".into(),
+        "f(1,, 2)".into(), "f(1, )".into(), "f(, 1)".into(), "min(1, 2) { 3 }".into(), "min(i in S)".into(), "x y".into(), "x_i y".into(),
+        "a and_x".into(), "a not_x".into(), "not_x".into(), "and_x + or_1".into(), "true_1 + false_x".into(), "a xor_x b".into(),
+    ];
+    for t in by_class { push(one_text(&t, &[], "malformed-by-class"), &mut cases); }
     cases
 }
